@@ -14,6 +14,7 @@ import Driver.OpsScope
 import Driver.OpsTP
 import Driver.OpsClient
 import Driver.OpsHeader
+import Driver.OpsJson
 
 namespace Driver
 open Macaroon
@@ -71,7 +72,7 @@ def evalOp : Sx → Option String
 def evalLine (line : String) : String :=
   match Sx.parse line with
   | none => "bad-parse"
-  | some sx => ((evalOp sx) <|> (evalOpWire sx) <|> (evalOpToken sx) <|> (evalOpScope sx) <|> (TPIO.evalOpTP sx) <|> (ClientIO.evalOpClient sx) <|> (evalOpHeader sx)).getD "bad-op"
+  | some sx => ((evalOp sx) <|> (evalOpWire sx) <|> (evalOpToken sx) <|> (evalOpScope sx) <|> (TPIO.evalOpTP sx) <|> (ClientIO.evalOpClient sx) <|> (evalOpHeader sx) <|> (evalOpJson sx)).getD "bad-op"
 
 partial def loop (h : IO.FS.Stream) (out : IO.FS.Stream) : IO Unit := do
   let line ← h.getLine
